@@ -140,6 +140,13 @@ def gen_instances(rng, tier):
     for t in INT_TYPES:
         for (n, d) in gen_factors(rng, t, per_type):
             inst.append({"id": len(inst), "T": t, "N": n, "D": d})
+    # same width and signedness, another C++ TYPE: a change keyed on std::is_same<T, int64_t> or on the fixed-width typedefs
+    # must not escape (long long vs long, plain char / signed char vs int8_t's underlying type, ...)
+    ALT = {"i64": ["long long"], "u64": ["unsigned long long"], "i8": ["char", "signed char"], "u8": ["unsigned char"], "i32": ["int"],
+           "u32": ["unsigned"], "i16": ["short"], "u16": ["unsigned short"]}
+    for i in inst:
+        if i["T"] in ALT and rng.random() < 0.15:
+            i["ctype"] = rng.choice(ALT[i["T"]])
     return inst
 
 
@@ -326,7 +333,7 @@ def write_harness(wd, insts, certs, nchunks=16):
             f.write(f"extern const Entry table{ci}[] = {{\n")
             for ins in ch:
                 c = certs[ins["id"]]
-                f.write(f"  ENTRY({ins['id']}, {CTYPE[ins['T']]}, {mag_expr(ins['N'])}, {mag_expr(ins['D'])}, "
+                f.write(f"  ENTRY({ins['id']}, {ins.get('ctype') or CTYPE[ins['T']]}, {mag_expr(ins['N'])}, {mag_expr(ins['D'])}, "
                         f"{'true' if c['compiles'] == '1' else 'false'}),\n")
             f.write("};\n")
         files.append(p)
@@ -412,7 +419,7 @@ def oracle(t, n, d, x):
 
 
 def neg_probe_src(ins):
-    return (HARNESS_COMMON + f"\nint main() {{ return int(Inst<{CTYPE[ins['T']]}, decltype({mag_expr(ins['N'])}), "
+    return (HARNESS_COMMON + f"\nint main() {{ return int(Inst<{ins.get('ctype') or CTYPE[ins['T']]}, decltype({mag_expr(ins['N'])}), "
             f"decltype({mag_expr(ins['D'])}), true>::conv(1)); }}\n")
 
 
@@ -489,6 +496,8 @@ def explore(prop, tier, seed, rng, wd):
             t, n, d = ins["T"], ins["N"], ins["D"]
             cfg = f"{compiler} -std={std}"
             base = {"T": t, "N": n, "D": d, "config": cfg}
+            if ins.get("ctype"):
+                base["ctype"] = ins["ctype"]
             if l[0] == "S":
                 r = kv(a)
                 stats["sweeps"] += 1
@@ -632,6 +641,8 @@ def replay(prop, rec):
     wd = workdir(prop + "_replay")
     drv = Driver()
     ins = {"id": 0, "T": r["T"], "N": int(r["N"]), "D": int(r["D"])}
+    if r.get("ctype"):
+        ins["ctype"] = r["ctype"]
     cert = kv(drv.ask([f"cert {ins['T']} {ins['N']} {ins['D']}"])[0])
     files = write_harness(wd, [ins], {0: cert}, nchunks=1)
     cfg = r.get("config", "g++ -std=c++14").split()
